@@ -3,6 +3,7 @@ C08, `JoinHandle::join` (`src/thread.rs`): the `JoinHandle`'s notify is created 
 `spawn`, notified by the spawned thread's epilogue BEFORE `thread_done`, and waited on by `join`.
 -/
 import LoomVerif.Proofs.C08Only
+import LoomVerif.Proofs.InterpMaxTh
 
 namespace LoomVerif
 namespace C08
@@ -42,25 +43,90 @@ theorem join_never_spurious {w w' : World} {o st : Nat} {s : NotifySt}
     (h : w.exec.objs[o]? = some (.notify s)) (hr : w.notifyWait1 o = .ok (w', st)) : st = 1 :=
   wait1_not_spurious h (hsteps.facts.2.1) hr
 
-/-- the epilogue of a spawned thread, second stage: `notify` on the `JoinHandle`'s object, THEN
-`thread_done`; the flag is set (and the exiting thread's causality released into the object) in
-the state in which the thread is terminated -/
+/-- the epilogue of a spawned thread, second stage (`0 < fin < 10`): `notify` on the `JoinHandle`'s
+object, and the thread enters the common tail (`fin := 10`: `drop_locals`, the destructors and only
+THEN `thread_done`, see `epilogue_tail_keeps`); the flag is set and the exiting thread's causality
+is released into the object -/
 theorem epilogue_notifies_then_exits {w w' : World} {c : TCtl} {b n : Nat} {s : NotifySt}
     (ht : w.tid ≠ 0) (hsp : w.spawned.find? (·.2.1 == w.tid) = some (b, w.tid, n))
-    (hn : w.exec.objs[n]? = some (.notify s)) (hfin : c.fin ≠ 0)
+    (hn : w.exec.objs[n]? = some (.notify s)) (hfin : c.fin ≠ 0) (hlt : c.fin < 10)
     (h : w.runEpilogue c = .ok w') :
-    ∃ w1 s1 a, w.notifyEffect n = .ok w1 ∧
-      (w1.modCtl w.tid fun c => { c with fin := 2 }).threadDone = .ok w' ∧
+    ∃ w1 s1, w.notifyEffect n = .ok w1 ∧
+      w' = w1.modCtl w.tid (fun c => { c with fin := 10 }) ∧
       w1.exec.objs[n]? = some (.notify s1) ∧ s1.notified = true ∧ w.ths.caus.le s1.sync.hb ∧
-      w'.exec.objs[n]? = some (.notify { s1 with lastAccess := a }) := by
-  rw [runEpilogue_spawned w c b n ht hsp] at h
+      w'.exec.objs[n]? = some (.notify s1) := by
+  rw [runEpilogue_spawned w c b n ht hsp hlt] at h
   simp only [hfin, beq_iff_eq, if_false] at h
   obtain ⟨w1, h1, h2⟩ := bind_ok h
   obtain ⟨s1, hs1, hnot, _, _, hle, _⟩ := notifyEffect_hb hn h1
-  have k : NotifyKept w1.exec.objs w'.exec.objs :=
-    @threadDone_keeps (w1.modCtl w.tid fun c => { c with fin := 2 }) w' h2
-  obtain ⟨a, ha⟩ := k n s1 hs1
-  exact ⟨w1, s1, a, h1, h2, hs1, hnot, hle, ha⟩
+  cases h2
+  exact ⟨w1, s1, h1, rfl, hs1, hnot, hle, hs1⟩
+
+theorem primEffect_keeps {w w' : World} {x : Nat} {p : Prim} {r : Ret}
+    (h : w.primEffect x p = .ok (w', r)) : NotifyKept w.exec.objs w'.exec.objs := by
+  unfold World.primEffect at h
+  have key : ∀ w0 : World, w0.exec.objs = w.exec.objs →
+      (do
+        let a ← w0.getAtomic (w0.atomObj x)
+        let (w1, idx) ← match ← p.candidates a w0.ths with
+          | some l => do
+            let path ← if w0.exec.path.isTraversed then w0.exec.path.pushLoad l w0.panicking
+                       else pure w0.exec.path
+            let (path, idx) ← path.branchLoad
+            pure (w0.setPath path, idx)
+          | none => pure (w0, 0)
+        let (a, ths, r) ← p.effect w1.cfg.ty a w1.ths idx
+        pure ((w1.setObj (w1.atomObj x) (.atomic a)).setThs ths, r)) = Except.ok (w', r) →
+      NotifyKept w.exec.objs w'.exec.objs := by
+    intro w0 e h
+    simp only [bind, Except.bind, pure, Except.pure, World.atomObj] at h
+    split at h
+    · cases h
+    · next a ha =>
+      have ha : w.exec.objs[x]? = some (.atomic a) := by
+        unfold World.getAtomic at ha
+        rw [e] at ha
+        split at ha <;> cases ha
+        assumption
+      repeat' split at h
+      all_goals first
+        | (cases h; done)
+        | (cases h
+           show NotifyKept w.exec.objs (w0.exec.objs.set x _)
+           rw [e]
+           exact notifyKept_set _ (by intro s; rw [ha]; simp))
+  split at h
+  · exact key w.sync rfl h
+  · exact key w rfl h
+
+theorem primStart_keeps {w w' : World} {x : Nat} {p : Prim} {next : Nat}
+    (h : w.primStart x p next = .ok w') : NotifyKept w.exec.objs w'.exec.objs := by
+  unfold World.primStart at h
+  split at h
+  · dsimp only at h
+    have k := branch_keeps h
+    exact k
+  · cases h; exact .refl _
+
+/-- the common tail of every thread (`fin ≥ 10`: `drop_locals`, the thread-local destructors'
+stores, `thread_done`) leaves every notify object alone: the flag raised by the epilogue's `notify`
+is still set in the state in which the thread has exited -/
+theorem epilogue_tail_keeps {w w' : World} {c : TCtl} (hge : 10 ≤ c.fin)
+    (h : w.runEpilogue c = .ok w') :
+    w.finishThread c = .ok w' ∧ NotifyKept w.exec.objs w'.exec.objs := by
+  rw [runEpilogue_finish w c hge] at h
+  refine ⟨h, ?_⟩
+  unfold World.finishThread at h
+  simp only [bind, Except.bind, pure, Except.pure] at h
+  repeat' split at h
+  all_goals first
+    | (cases h; done)
+    | (cases h
+       show NotifyKept w.exec.objs w.dropLocals.exec.objs
+       rw [World.dropLocals_exec]; exact .refl _)
+    | (have k := threadDone_keeps h; exact k)
+    | (have k := primStart_keeps h; exact k)
+    | (cases h; have k := primEffect_keeps ‹_›; exact k)
 
 /-- the epilogue's first stage is only the branch point of `notify`: it terminates nobody and
 raises no flag -/
@@ -70,7 +136,7 @@ theorem epilogue_first_stage {w w' : World} {c : TCtl} {b n : Nat}
     (w.modCtl w.tid fun c => { c with fin := 1 }).branch n .opaque = .ok w' ∧
     NotifyKept w.exec.objs w'.exec.objs ∧
     ∀ i, (w'.ths.get i).isTerminated = true → (w.ths.get i).isTerminated = true := by
-  rw [runEpilogue_spawned w c b n ht hsp] at h
+  rw [runEpilogue_spawned w c b n ht hsp (by omega)] at h
   simp only [hfin, beq_self_eq_true, if_true] at h
   exact ⟨h, @branch_keeps (w.modCtl w.tid fun c => { c with fin := 1 }) w' _ _ _ h,
     fun i hi => @branch_terminated (w.modCtl w.tid fun c => { c with fin := 1 }) w' _ _ _ h i hi⟩
@@ -103,14 +169,14 @@ any steps of the object, then the last stage of `join`: the joiner's causality i
 joined thread's causality at its exit -/
 theorem join_hb {wE wE' wJ wJ' : World} {cE cJ : TCtl} {bE b t n : Nat} {s0 s1 s2 : NotifySt}
     (ht : wE.tid ≠ 0) (hsp : wE.spawned.find? (·.2.1 == wE.tid) = some (bE, wE.tid, n))
-    (hn : wE.exec.objs[n]? = some (.notify s0)) (hfin : cE.fin ≠ 0)
+    (hn : wE.exec.objs[n]? = some (.notify s0)) (hfin : cE.fin ≠ 0) (hlt : cE.fin < 10)
     (hE : wE.runEpilogue cE = .ok wE') (hn1 : wE'.exec.objs[n]? = some (.notify s1))
     (hsteps : NotifySteps s1 s2)
     (hl : wJ.lookupSpawn b = .ok (t, n)) (hn2 : wJ.exec.objs[n]? = some (.notify s2))
     (hs : cJ.stage = 1) (hin : wJ.tid < wJ.ths.threads.length)
     (hJ : wJ.runOp cJ (.join b) = .ok wJ') :
     wE.ths.caus.le wJ'.ths.caus := by
-  obtain ⟨w1, s1', a, _, _, _, _, hle, ha⟩ := epilogue_notifies_then_exits ht hsp hn hfin hE
+  obtain ⟨w1, s1', _, _, _, _, hle, ha⟩ := epilogue_notifies_then_exits ht hsp hn hfin hlt hE
   rw [ha] at hn1; cases hn1
   obtain ⟨_, w2, _, rfl, hc⟩ := (join_stage1 (w' := wJ') hl hn2 hs).2 hJ
   have e : (w2.complete .unit).ths.caus = w2.ths.caus := rfl
